@@ -117,14 +117,15 @@ def draw_context(tape, serial, keyed=False, scale=False):
         return kind, None
     if kind == "empty":
         return kind, {}
-    ctx = {"k": tape.draw(3, "k"), "nest": {"i": serial, "l": [serial]}}
+    # (a key whose value is None is not a missing key)
+    ctx = {"k": [0, 1, 2, None][tape.draw(4, "k")], "nest": {"i": serial, "l": [serial]}}
     # equal sub-dictionaries built in different insertion orders
     if serial % 2:
         ctx["unit"] = {"name": "x", "u": "cm"}
     else:
         ctx["unit"] = {"u": "cm", "name": "x"}
     if tape.draw(2, "j"):
-        ctx["j"] = tape.draw(2, "jv")
+        ctx["j"] = [0, 1, None][tape.draw(3, "jv")]
     if scale and tape.draw(3, "scale") == 0:
         ctx["scale"] = 2
     return kind, ctx
@@ -153,8 +154,14 @@ def canon(x, depth=0):
             return ("num", Fraction(x))
         return ("dec", str(x))
     if isinstance(x, lena.structures.histogram):
+        # as a HistToGraph(scale=True) or a plot would: ask for the scale (which the histogram
+        # computes once and keeps; a histogram that is new has not computed it)
+        try:
+            sc_ = x.scale()
+        except Exception as e:  # noqa: BLE001
+            sc_ = ("scale-raises", type(e).__name__)
         return ("histogram", canon(x.edges, depth + 1), canon(x.bins, depth + 1),
-                x.n_out_of_range)
+                x.n_out_of_range, canon(sc_))
     if isinstance(x, lena.structures.Graph):
         # public interface only: the points property and scale()
         try:
@@ -471,8 +478,8 @@ class KVectorize(Kind):
     name = "Vectorize"
 
     def draw_cfg(self, tape):
-        inner = tape.choice(["Sum", "DSum", "Mean", "Count", "list", "StoreItems"], "inner")
-        return {"inner": inner, "dim": 2 + tape.draw(2, "dim"),
+        inner = tape.choice(["Sum", "DSum", "Mean", "Count", "list", "StoreItems", "mixed"], "inner")
+        return {"inner": inner, "dim": 2 + (tape.draw(2, "dim") if inner != "mixed" else 0),
                 "family": "wild" if inner == "DSum" and tape.draw(2, "w") else
                 tape.choice(["int", "dyadic"], "family")}
 
@@ -486,6 +493,9 @@ class KVectorize(Kind):
             return lena.math.Vectorize(lena.math.Mean(), dim=cfg["dim"])
         if inner == "Count":
             return lena.math.Vectorize(lena.flow.Count(), dim=cfg["dim"])
+        if inner == "mixed":
+            # components that yield different numbers of results: the shorter output is padded
+            return lena.math.Vectorize([lena.flow.StoreFilled(yield_as_a_group=False), lena.math.Sum()])
         if inner == "StoreItems":
             # the component accumulators yield one result per filled value
             return lena.math.Vectorize(lena.flow.StoreFilled(yield_as_a_group=False), dim=cfg["dim"])
@@ -499,6 +509,27 @@ class KVectorize(Kind):
         n = len(hist)
         dim = cfg["dim"]
         kinds = [inner] * dim if inner != "list" else ["Sum", "Mean", "DSum"][:dim]
+        if inner == "mixed":
+            if outcome[0] != "ok":
+                return ("exception", "compute raised %r" % (outcome[1],))
+            res_ = outcome[1]
+            fold, py = float_sums(0, [h[0][1] for h in hist])
+            if len(res_) != max(n, 1):
+                return ("number-of-results", "%d values were filled: the first component yields %d "
+                        "results, the second one; %d results came out (the longest output, padded "
+                        "with None, is documented)" % (n, n, len(res_)))
+            for i, r in enumerate(res_):
+                data, ctx = split_result(r)
+                exp0 = hist[i][0][0] if i < n else None
+                if not isinstance(data, tuple) or len(data) != 2 or data[0] != exp0 \
+                        or (i == 0 and (data[1] is None or not (data[1] == fold or data[1] == py))) \
+                        or (i > 0 and data[1] is not None):
+                    return ("value", "result %d of Vectorize([StoreFilled items, Sum]) is %r after "
+                            "filling %r" % (i, summarize(data), [h[0] for h in hist]))
+                if not expect_ctx_optional(True, ctx, last_ctx(hist)):
+                    return ("context", "result %d of Vectorize came with context %r; the last filled "
+                            "context is %r" % (i, summarize(ctx), summarize(last_ctx(hist))))
+            return None
         if inner == "StoreItems":
             if outcome[0] != "ok":
                 return ("exception", "compute raised %r" % (outcome[1],))
@@ -830,9 +861,15 @@ def take(r, touch, originals=None):
     if not touch:
         return r
     snap = copy.deepcopy(r)
-    ctx = split_result(r)[1]
+    data, ctx = split_result(r)
     if ctx is not None:
         ctx["downstream"] = {"touched": True}
+    if isinstance(data, lena.structures.histogram):
+        # ... and asks the histogram it was given for its scale (which the histogram then keeps)
+        try:
+            data.scale()
+        except Exception:  # noqa: BLE001
+            pass
     return snap
 
 
